@@ -11,14 +11,14 @@ C == 1048576
 Trace == ndJsonDeserialize("trace.ndjson")
 VARIABLE l
 Init == l = 1
-Bound(n) == K * n + C
-BoundKB(n) == Bound(n) \div 1024     \* quantities in KiB: TLC integers are 32-bit
+\* quantities in KiB: TLC integers are 32-bit and inputs reach 16 MiB
+BoundKB(n) == K * ((n + 1023) \div 1024) + C \div 1024
 Reasons(e) ==
   IF e.outcome \in {"slow", "skipped"} THEN <<>> ELSE
      (IF e.outcome \notin {"ok", "err"} THEN <<e.outcome>> ELSE <<>>)
   \o (IF e.alloc_kb > BoundKB(e.n) THEN <<"memory">> ELSE <<>>)
   \o (IF e.stack_kb > BoundKB(e.n) THEN <<"stack">> ELSE <<>>)
-  \o (IF e.outlen > Bound(e.n) THEN <<"output-size">> ELSE <<>>)
+  \o (IF e.outlen \div 1024 > BoundKB(e.n) THEN <<"output-size">> ELSE <<>>)
   \o (IF \E i \in 1..Len(e.post) : e.post[i].outcome \notin {"ok", "err", "slow", "skipped"} THEN <<"post-panic">> ELSE <<>>)
   \o (IF \E i \in 1..Len(e.post) : e.post[i].alloc_kb > BoundKB(e.n) THEN <<"post-memory">> ELSE <<>>)
 Next == /\ l <= Len(Trace)
